@@ -175,6 +175,21 @@ func ExploreScenario(sc *Scenario, cfg Config) Stats {
 			}
 		}
 		obs := inst.Obs()
+		firstSig := ""
+		if first {
+			firstSig, _ = inst.Check(x)
+		}
+		if first && firstSig != "" {
+			// the very first execution already violates the property: the violation is
+			// confirmed by replay below; a replay-twice comparison of a violating execution
+			// would only report the same thing as "nondeterminism" (e.g. when the code under
+			// test leaks state into process-global variables)
+			first = false
+			st.SampleTrace = traceStrings(tr)
+			if len(st.SampleTrace) > 40 {
+				st.SampleTrace = st.SampleTrace[:40]
+			}
+		}
 		if first {
 			// self-check: the default schedule replayed must give the identical observation
 			first = false
